@@ -523,6 +523,11 @@ fn palette() -> Vec<(Val, Option<Vec<u8>>)> {
         (Val::OptStr(Some("x".into())), Some(b"x".to_vec())),
         (Val::Myc(mysql_common::value::Value::NULL), None),
         (Val::U8(0), Some(b"0".to_vec())),
+        // bit twins of other palette entries: same width, same bits, another type
+        (Val::I64(-1), Some(b"-1".to_vec())),
+        (Val::U64(1 << 63), Some(b"9223372036854775808".to_vec())),
+        (Val::I32(-1), Some(b"-1".to_vec())),
+        (Val::U32(u32::MAX), Some(b"4294967295".to_vec())),
     ]
 }
 
@@ -733,6 +738,113 @@ impl Family for RecoverText {
     }
 }
 
+/// The text of a value must not depend on what was encoded before it on the same thread: for every
+/// ordered pair (x, y) of a palette built from *bit twins* (values of different types with the
+/// same width and bit pattern: -1i64 / u64::MAX, i64::MIN / 2^63, 1.0f32 / 1065353216u32, ...),
+/// temporal values and strings, x is encoded first - into a good writer, or into a writer that
+/// fails (a zero-length slice) - and then y into a fresh buffer. y's bytes must equal the bytes y
+/// gets on a thread that never encoded anything else (computed once per value), which the scalar
+/// families check absolutely.
+struct SeamHistories {
+    pal: Vec<Val>,
+    fresh: Vec<Vec<u8>>,
+}
+impl SeamHistories {
+    fn palette() -> Vec<Val> {
+        let d = NaiveDate::from_ymd_opt(2020, 2, 3).unwrap();
+        vec![
+            Val::I8(-1),
+            Val::U8(255),
+            Val::I16(-1),
+            Val::U16(65535),
+            Val::I32(-1),
+            Val::U32(u32::MAX),
+            Val::I64(-1),
+            Val::U64(u64::MAX),
+            Val::I64(i64::MIN),
+            Val::U64(1 << 63),
+            Val::Isize(-1),
+            Val::Usize(usize::MAX),
+            Val::F32(1.0),
+            Val::U32(1.0f32.to_bits()),
+            Val::I32(1.0f32.to_bits() as i32),
+            Val::F64(1.0),
+            Val::U64(1.0f64.to_bits()),
+            Val::I64(1.0f64.to_bits() as i64),
+            Val::F64(-0.0),
+            Val::I64(i64::MIN + 0),
+            Val::U8(7),
+            Val::I32(7),
+            Val::Date(d),
+            Val::DateTime(d.and_hms_micro_opt(4, 5, 6, 7).unwrap()),
+            Val::Dur(Duration::new(3600 + 62, 0)),
+            Val::Str("7".into()),
+            Val::Bytes(vec![0xfb, 0x37]),
+            Val::Null,
+            Val::Str("x".repeat(300)),
+        ]
+    }
+    fn new() -> Self {
+        let pal = Self::palette();
+        // one fresh OS thread per value: nothing else was ever encoded there
+        let fresh = pal
+            .iter()
+            .map(|v| {
+                let v = v.clone();
+                std::thread::spawn(move || {
+                    let mut out = Vec::new();
+                    let _ = v.to_mysql_text(&mut out);
+                    out
+                })
+                .join()
+                .unwrap_or_default()
+            })
+            .collect();
+        SeamHistories { pal, fresh }
+    }
+}
+impl Family for SeamHistories {
+    fn name(&self) -> String {
+        "encoding-histories-at-the-seam".into()
+    }
+    fn len(&self) -> u64 {
+        (self.pal.len() * self.pal.len() * 2) as u64
+    }
+    fn run(&self, idx: u64, st: &mut Stats) -> Result<(), Violation> {
+        let n = self.pal.len() as u64;
+        let d = digits(idx, &[n, n, 2]);
+        let (x, y, failing) = (&self.pal[d[0] as usize], &self.pal[d[1] as usize], d[2] == 1);
+        st.nontrivial += 1;
+        st.bump("seam_histories");
+        let r = guarded(|| {
+            if failing {
+                let mut none: [u8; 0] = [];
+                let _ = x.to_mysql_text(&mut &mut none[..]);
+            } else {
+                let mut sink = Vec::new();
+                let _ = x.to_mysql_text(&mut sink);
+            }
+            let mut out = Vec::new();
+            y.to_mysql_text(&mut out).map(|_| out)
+        });
+        let what = format!("{} encoded after {}{}", val_short(y), val_short(x), if failing { " (whose writer failed)" } else { "" });
+        match r {
+            Err((l, m)) => Err(Violation::new(panic_key(&l, &m), format!("{}: to_mysql_text panicked at {}: {}", what, l, m))),
+            Ok(Err(e)) => Err(Violation::new("encode-error-after-history", format!("{}: to_mysql_text returned {}", what, e))),
+            Ok(Ok(out)) if out != self.fresh[d[1] as usize] => Err(Violation::new(
+                "text-depends-on-history",
+                format!("{}: bytes {:?}, on a thread that encoded nothing before {:?}", what, String::from_utf8_lossy(&out[..out.len().min(40)]), String::from_utf8_lossy(&self.fresh[d[1] as usize][..self.fresh[d[1] as usize].len().min(40)])),
+            )),
+            Ok(Ok(_)) => Ok(()),
+        }
+    }
+    fn describe(&self, idx: u64) -> J {
+        let n = self.pal.len() as u64;
+        let d = digits(idx, &[n, n, 2]);
+        json!({"first": val_short(&self.pal[d[0] as usize]), "first_writer_fails": d[2] == 1, "then": val_short(&self.pal[d[1] as usize])})
+    }
+}
+
 pub fn build(quick: bool) -> Check {
     let pal = palette();
     let p = pal.len() as u64;
@@ -743,6 +855,7 @@ pub fn build(quick: bool) -> Check {
         Box::new(Bytes { lens: byte_lengths(quick) }),
         Box::new(Rows { pal, small }),
         Box::new(RecoverText),
+        Box::new(SeamHistories::new()),
     ];
     if !quick {
         for w in 0..3 {
@@ -752,7 +865,7 @@ pub fn build(quick: bool) -> Check {
     Check {
         id: "C06",
         level: "model_checking",
-        rule: "values at the public to_mysql_text seam, decoded by refwire and by mysql_common's TextValue: u8/i8/u16/i16 exhaustive (u32/i32/finite f32 exhaustive in thorough); u64/i64/usize/isize/f64/f32 over all 2^k, 2^k+-1, 10^k+-1, d*10^k, repdigits and digit runs of every length, every value -20000..70000, m*10^k for every decimal exponent, bounds, subnormals, non-terminating fractions; every calendar date of years 0..9999, every second of a day x 4 microsecond values, every second of 0..838:59:59 x 4 microsecond values, 22 microsecond values of every decimal shape at further times and durations; byte strings of every length 0..300, 65534..65537 (and 2^24-1..2^24+1 in thorough) x 6 leading bytes incl. 0xFB..0xFF; Option, &T, String/str/Vec<u8>, mysql_common::Value variants; NULL vs \"\" vs \"NULL\". Through rows: every arrangement of <= 3 cells over a 15-value mixed palette and rotations for shapes up to 3x4, via write_col and write_row; a refused text value (invalid generic date, negative generic time) at each column followed by a replacement. Values in context: every sequence of <= 3 (thorough: 4) events on one connection (rows of other shapes incl. all-NULL / alternating NULLs / 300- and 70000-byte cells, a refused cell, a new resultset behind finish_one with the same or other columns, behind a completion, behind a zero-column set, a new command in the same or the other protocol, finish_error) followed by a probe row of characteristic values for nine column types; every row of the conversation must decode cell for cell to what was written. Non-trivial = beyond what the unit tests sample (1, MAX, one date).".into(),
+        rule: "values at the public to_mysql_text seam, decoded by refwire and by mysql_common's TextValue: u8/i8/u16/i16 exhaustive (u32/i32/finite f32 exhaustive in thorough); u64/i64/usize/isize/f64/f32 over all 2^k, 2^k+-1, 10^k+-1, d*10^k, repdigits and digit runs of every length, every value -20000..70000, m*10^k for every decimal exponent, bounds, subnormals, non-terminating fractions; every calendar date of years 0..9999, every second of a day x 4 microsecond values, every second of 0..838:59:59 x 4 microsecond values, 22 microsecond values of every decimal shape at further times and durations; byte strings of every length 0..300, 65534..65537 (and 2^24-1..2^24+1 in thorough) x 6 leading bytes incl. 0xFB..0xFF; Option, &T, String/str/Vec<u8>, mysql_common::Value variants; NULL vs \"\" vs \"NULL\". Through rows: every arrangement of <= 3 cells over a 15-value mixed palette and rotations for shapes up to 3x4, via write_col and write_row; a refused text value (invalid generic date, negative generic time) at each column followed by a replacement. Encoding histories at the seam: every ordered pair of a 29-value palette (bit twins of different types such as -1i64 / u64::MAX or 1.0f32 / 1065353216u32, temporal values, strings), the first encoded into a good or a failing writer, the second must get the bytes it gets on a thread that never encoded anything else; the bit twins also sit next to each other in the row arrangements. Values in context: every sequence of <= 3 (thorough: 4) events on one connection (rows of other shapes incl. all-NULL / alternating NULLs / 300- and 70000-byte cells, a refused cell, a new resultset behind finish_one with the same or other columns, behind a completion, behind a zero-column set, a new command in the same or the other protocol, finish_error) followed by a probe row of characteristic values for nine column types; every row of the conversation must decode cell for cell to what was written. Non-trivial = beyond what the unit tests sample (1, MAX, one date).".into(),
         assumptions: vec![
             "a conformant client parses numeric text with the same-width standard parser; floats must round-trip bit-exactly".into(),
             "64-bit numeric domains are covered at lattices, not exhaustively".into(),
@@ -768,6 +881,6 @@ pub fn build(quick: bool) -> Check {
             }
             f
         },
-        required: vec!["aftermath_recovered", "context_walks", "scalar_values", "dates", "times_of_day", "durations", "strings_beyond_65535", "row_arrangements", "text_recoveries"],
+        required: vec!["aftermath_recovered", "context_walks", "seam_histories", "scalar_values", "dates", "times_of_day", "durations", "strings_beyond_65535", "row_arrangements", "text_recoveries"],
     }
 }
